@@ -43,6 +43,10 @@ Inductive c10_diag :=
 | DgKept                                  (* replace-input: "there are warnings; original file kept in" *)
 | DgUnlink.                               (* replace-input: "unable to delete original file" (not an error) *)
 
+(* what a C++ exception thrown by a sink carries *)
+Inductive c10_exn := Exn (c : c10_eclass) (name : nat).
+Definition c10_exn_diag (e : c10_exn) : c10_diag := match e with Exn c n => DgErr c n end.
+
 Inductive c10_ev :=
 | EvOpen (name : nat) (ok : bool)
 | EvWrite (name : nat) (len ret : nat)
@@ -68,7 +72,7 @@ Record c10_env := mk_env {
 
 Inductive c10_res (A : Type) :=
 | ROk (a : A) (w : c10_world)
-| RExc (e : c10_diag) (w : c10_world)    (* a C++ exception is propagating *)
+| RExc (e : c10_exn) (w : c10_world)    (* a C++ exception is propagating *)
 | RDead (w : c10_world).                 (* the process was killed *)
 Arguments ROk {A}. Arguments RExc {A}. Arguments RDead {A}.
 
@@ -179,10 +183,10 @@ Fixpoint c10_pl_write (fuel : nat) (en : c10_env) (name : nat) (d : list N) (w :
   | [] => ROk tt w
   | _ =>
     match fuel with
-    | O => RExc (DgErr EcLoop name) w
+    | O => RExc (Exn EcLoop name) w
     | S fu =>
       c10_bind (c10_fwrite en name d w) (fun r w1 =>
-        if Nat.eqb r 0 then RExc (DgErr EcWrite name) w1
+        if Nat.eqb r 0 then RExc (Exn EcWrite name) w1
         else c10_pl_write fu en name (skipn r d) w1)
     end
   end.
@@ -198,7 +202,7 @@ Fixpoint c10_pl_write_chunks (en : c10_env) (name : nat) (chunks : list (list N)
 (* finish: fflush; pinned tree: only EBADF is looked at (cannot happen here) *)
 Definition c10_pl_finish (en : c10_env) (name : nat) (w : c10_world) : c10_res unit :=
   c10_bind (c10_fflush en name w) (fun ok w1 =>
-    if ck_finish (en_ck en) && (negb ok || c10_ferror w1 name) then RExc (DgErr EcFlush name) w1
+    if ck_finish (en_ck en) && (negb ok || c10_ferror w1 name) then RExc (Exn EcFlush name) w1
     else ROk tt w1).
 
 (* a destructor that closes the stream if it is still open, result ignored; an exception in flight
@@ -217,12 +221,12 @@ Definition c10_dtor_close {A} (en : c10_env) (name : nat) (r : c10_res A) : c10_
 (* ---- QPDFWriter to a named file: setOutputFilename (safe_fopen "wb+"), write(), ~Writer *)
 Definition c10_writer_file (en : c10_env) (name : nat) (chunks : list (list N)) (w : c10_world) : c10_res unit :=
   c10_bind (c10_fopen en name w) (fun ok w1 =>
-    if negb ok then RExc (DgErr EcOpen name) w1 else
+    if negb ok then RExc (Exn EcOpen name) w1 else
     c10_dtor_close en name
       (c10_bind (c10_pl_write_chunks en name chunks w1) (fun _ w2 =>
        c10_bind (c10_pl_finish en name w2) (fun _ w3 =>
        c10_bind (c10_fclose en name w3) (fun okc w4 =>
-         if ck_wclose (en_ck en) && negb okc then RExc (DgErr EcClose name) w4 else ROk tt w4))))).
+         if ck_wclose (en_ck en) && negb okc then RExc (Exn EcClose name) w4 else ROk tt w4))))).
 
 (* ---- std::cout through Pl_OStream.  name 0 is stdout. *)
 Definition c10_stdout := 0.
@@ -242,7 +246,7 @@ Definition c10_os_flush (en : c10_env) (w : c10_world) : c10_res unit :=
   c10_bind (c10_fflush en c10_stdout w) (fun ok w1 => ROk tt (if ok then w1 else c10_set_bad w1)).
 Definition c10_os_finish (en : c10_env) (w : c10_world) : c10_res unit :=
   c10_bind (c10_os_flush en w) (fun _ w2 =>
-    if ck_ostream (en_ck en) && cw_cout_bad w2 then RExc (DgErr EcStdout c10_stdout) w2 else ROk tt w2).
+    if ck_ostream (en_ck en) && cw_cout_bad w2 then RExc (Exn EcStdout c10_stdout) w2 else ROk tt w2).
 (* std::cerr is tied to std::cout: every insertion into cerr (a warning, the final messages) first
    calls cout.flush() when cout is good; nobody looks at the result *)
 Fixpoint c10_os_tie_n (n : nat) (en : c10_env) (w : c10_world) : c10_res unit :=
@@ -279,25 +283,25 @@ Fixpoint c10_json_items (en : c10_env) (main : nat) (items : list c10_jitem) (w 
   | JChunk d :: tl => c10_bind (c10_pl_write_all en main d w) (fun _ w1 => c10_json_items en main tl w1)
   | JStreamOpen s :: tl =>
     c10_bind (c10_fopen en s w) (fun ok w1 =>
-      if negb ok then RExc (DgErr EcOpen s) w1 else c10_json_items en main tl w1)
+      if negb ok then RExc (Exn EcOpen s) w1 else c10_json_items en main tl w1)
   | JStreamChunk s d :: tl => c10_bind (c10_pl_write_all en s d w) (fun _ w1 => c10_json_items en main tl w1)
   | JStreamEnd s :: tl =>
     c10_bind (c10_pl_finish en s w) (fun _ w1 =>
     c10_bind (c10_fclose en s w1) (fun okc w2 =>
-      if ck_jsclose (en_ck en) && negb okc then RExc (DgErr EcClose s) w2 else c10_json_items en main tl w2))
+      if ck_jsclose (en_ck en) && negb okc then RExc (Exn EcClose s) w2 else c10_json_items en main tl w2))
   end.
 
 (* QPDFJob::writeJSON to a named file: FileCloser(safe_fopen "w"), Pl_StdioFile, doJSON; pinned tree:
    nobody calls finish, ~FileCloser fcloses and ignores the result *)
 Definition c10_json_file (en : c10_env) (main : nat) (items : list c10_jitem) (w : c10_world) : c10_res unit :=
   c10_bind (c10_fopen en main w) (fun ok w1 =>
-    if negb ok then RExc (DgErr EcOpen main) w1 else
+    if negb ok then RExc (Exn EcOpen main) w1 else
     c10_dtor_close en main
       (c10_bind (c10_json_items en main items w1) (fun _ w2 =>
         if ck_jclose (en_ck en) then
           c10_bind (c10_pl_finish en main w2) (fun _ w3 =>
           c10_bind (c10_fclose en main w3) (fun okc w4 =>
-            if negb okc then RExc (DgErr EcClose main) w4 else ROk tt w4))
+            if negb okc then RExc (Exn EcClose main) w4 else ROk tt w4))
         else ROk tt w2))).
 
 (* ---- the jobs *)
@@ -324,9 +328,9 @@ Definition c10_replace (en : c10_env) (warn : bool) (inp backup temp : nat) (chu
            (w : c10_world) : c10_res unit :=
   c10_bind (c10_writer_file en temp chunks w) (fun _ w1 =>
   c10_bind (c10_rename en inp backup w1) (fun ok1 w2 =>
-    if negb ok1 then RExc (DgErr EcRename inp) w2 else
+    if negb ok1 then RExc (Exn EcRename inp) w2 else
   c10_bind (c10_rename en temp inp w2) (fun ok2 w3 =>
-    if negb ok2 then RExc (DgErr EcRename temp) w3 else
+    if negb ok2 then RExc (Exn EcRename temp) w3 else
     if warn then ROk tt (c10_say w3 DgKept) else
     c10_bind (c10_unlink en backup w3) (fun ok3 w4 =>
       ROk tt (if ok3 then w4 else c10_say w4 DgUnlink))))).
@@ -381,7 +385,7 @@ Definition c10_process_exit (en : c10_env) (sc : c10_scen) (code : nat) (w : c10
 Definition c10_main_stdout_check (en : c10_env) (sc : c10_scen) (w : c10_world) : c10_res unit :=
   if ck_stdout (en_ck en) && c10_uses_stdout sc then
     c10_bind (c10_fflush en c10_stdout w) (fun ok w1 =>
-      if negb ok || c10_ferror w1 c10_stdout || cw_cout_bad w1 then RExc (DgErr EcStdout c10_stdout) w1 else ROk tt w1)
+      if negb ok || c10_ferror w1 c10_stdout || cw_cout_bad w1 then RExc (Exn EcStdout c10_stdout) w1 else ROk tt w1)
   else ROk tt w.
 
 Definition c10_initial (en : c10_env) (sc : c10_scen) (orig : list N) : c10_world :=
@@ -407,7 +411,7 @@ Definition c10_run (en : c10_env) (warn warn_exit0 : bool) (sc : c10_scen) (orig
         c10_bind (c10_main_stdout_check en sc w2) (fun _ w3 => ROk wn w3))) with
   | ROk wn w => c10_process_exit en sc (if wn && negb warn_exit0 then 3 else 0) w
   | RExc e w =>
-    match c10_os_tie_n (c10_catch_ties sc) en (c10_say w e) with
+    match c10_os_tie_n (c10_catch_ties sc) en (c10_say w (c10_exn_diag e)) with
     | ROk _ w' => c10_process_exit en sc 2 w'
     | RExc _ w' => c10_process_exit en sc 2 w'
     | RDead w' => mk_result None w'
